@@ -306,8 +306,7 @@ namespace foonathan
             }
 
         private:
-            unsigned short derived_size_      = 0,
-                           derived_alignment_ = 0; // use unsigned short here to save space
+            std::size_t derived_size_ = 0, derived_alignment_ = 0; // full width: types may exceed 65535 bytes
         };
     } // namespace memory
 } // namespace foonathan
